@@ -252,6 +252,7 @@ static bool body_mat(const Case &c, Ctx &ctx)
             if (hsum) ctx.nt("mat8:high-parts-sum>255"); if (lband) ctx.nt("mat8:>=2-low-parts-above-0xFFFFFFFF00000000-in-a-lane");
         }
         if (maxnc >= 2) ctx.nt("mat:>=2-noncanonical-products-in-a-lane"); else if (maxnc == 1) ctx.nt("mat:1-noncanonical-product"); else if (nc_state) ctx.nt("mat:noncanonical-state"); else ctx.cls("mat:all-canonical");
+        { int nz = 0; for (int i = 0; i < 12; i++) if (st[0][i] % PR) nz++; if (nz <= 4) ctx.cls("mat:sparse-state(<=4-non-zero)"); }
         if (want_aligned) ctx.cls("mat:aligned-variant"); else ctx.cls(misalign ? "mat:misaligned-array" : "mat:array-ends-at-guard-page");
     }
     bool ok = true; std::string why;
@@ -358,8 +359,12 @@ static rc::Gen<std::vector<uint64_t>> gen_mat(const MKern *k)
                     x = (((uint64_t)((((unsigned __int128)j << 32) - 1) / m) & 0xFFFFFFFFull) << 32) | (0xFFFFFFFFull - (extra[t] % 3));
                 }
                 bool crafted = ((mode >> (16 + t)) & 1) || (mode & 0x800);
-                v[t] = crafted ? x : extra[20 + t];
-                if (S == 2) v[12 + t] = ((mode >> (32 + t)) & 1) ? x : extra[40 + t];
+                // sparse variant: only a few (1..4) crafted positions, everything else zero -- intermediate sums then KEEP the raw
+                // (non-canonical) representation of a single product all the way to the last adder of the kernel
+                const bool sparse = (mode >> 52) & 1;
+                if (sparse) { int kcr = 1 + (int)((mode >> 53) % 4); crafted = false; for (int q = 0; q < kcr; q++) if ((int)((mode >> (16 + 4 * q)) % 12) == t) crafted = true; }
+                v[t] = crafted ? x : (sparse ? 0 : extra[20 + t]);
+                if (S == 2) v[12 + t] = ((mode >> (32 + t)) & 1) ? x : (sparse ? 0 : extra[40 + t]);
                 if (crafted || S == 2) v[12 * S + 12 * row + t] = m;
             }
             return v;
@@ -377,6 +382,12 @@ static rc::Gen<std::vector<uint64_t>> gen_mat(const MKern *k)
                     v[12 * S + 12 * r + t] = ps[t].second;
                 } else v[12 * S + 12 * r + t] = extra[e++ % extra.size()];
             }
+        if ((mode >> 52) % 5 == 0) {
+            // sparse variant: keep 1..4 state elements (with their solved coefficients), zero the rest
+            int kcr = 1 + (int)((mode >> 55) % 4); bool keep[12] = {false};
+            for (int q = 0; q < kcr; q++) keep[(mode >> (16 + 4 * q)) % 12] = true;
+            for (int t = 0; t < 12; t++) if (!keep[t]) { v[t] = 0; if (S == 2) v[12 + t] = (mode & 2) ? 0 : v[12 + t]; }
+        }
         return v;
     }, rc::gen::container<std::vector<g::P2>>(12, pg), rc::gen::container<std::vector<uint64_t>>(12 + 144, g::fe()), g::uni64());
 }
